@@ -838,7 +838,8 @@ func fixedTableLayout(box *bo.BoxFields) {
 				}
 			}
 			if len(columnsWithoutWidth) != 0 {
-				widthPerColumn := width / pr.Float(len(columnsWithoutWidth))
+				// a used width is never negative
+				widthPerColumn := pr.Max(0, width/pr.Float(len(columnsWithoutWidth)))
 				for _, j := range columnsWithoutWidth {
 					columnWidths[j] = widthPerColumn
 				}
